@@ -673,26 +673,16 @@ fn partial_liquidation(
     )
     .unwrap();
 
-    let msg: SubMsg = if current_notional > position.notional {
-        swap_input(
-            &vamm,
-            direction_to_side(position.direction.clone()),
-            position.notional,
-            Uint128::zero(),
-            true,
-            PARTIAL_LIQUIDATION_REPLY_ID,
-        )
-        .unwrap()
-    } else {
-        swap_output(
-            &vamm,
-            direction_to_side(position.direction),
-            partial_position_size,
-            partial_asset_limit,
-            PARTIAL_LIQUIDATION_REPLY_ID,
-        )
-        .unwrap()
-    };
+    // always close the liquidated fraction by its base amount: the reply handler reduces the
+    // position by exactly the base amount the vAMM reports for this swap
+    let msg: SubMsg = swap_output(
+        &vamm,
+        direction_to_side(position.direction),
+        partial_position_size,
+        partial_asset_limit,
+        PARTIAL_LIQUIDATION_REPLY_ID,
+    )
+    .unwrap();
 
     Ok(msg)
 }
